@@ -563,6 +563,19 @@
         }
     }
 
+    /// Contract stub of successful_match for the driver obligations (its own contract is e9_bt_successful_match):
+    /// the reported range is start..end as offsets. Built without heap allocation: Kani's free() model trips on the
+    /// zero-length boxed slices a Match of a group-less regex carries.
+    fn sm_stub<'r, Input: InputIndexer>(
+        this: &mut BacktrackExecutor<'r, Input>, start: Input::Position, end: Input::Position,
+    ) -> Match where 'r: 'r {
+        Match {
+            range: this.input.pos_to_offset(start)..this.input.pos_to_offset(end),
+            captures: Vec::new(),
+            group_names: Box::new([]),
+        }
+    }
+
     /// haystack: three chars of lengths (1|2) so that multi-byte boundaries occur; returns (buf, len, is_boundary[])
     fn driver_hay() -> ([u8; 4], usize, [bool; 5]) {
         let two: bool = kani::any();
@@ -597,21 +610,15 @@
         None
     }
 
-    // @obligation name=f1_bt_driver_prefix_search props=C04,C09,C01:t,C06:t fn=classicalbacktrack::BacktrackExecutor::next_match_with_prefix_search kind=bounded bound="haystack of 3 chars (3-4 bytes, one optional 2-byte char), every start boundary; prefilter = symbolic 1-byte ByteBitmap or EmptyString; interpreter = oracle" min_checks=500 w=3 timeout=1500
-    // next_match_with_prefix_search: attempts are made at strictly increasing char boundaries >= start and only at
-    // offsets the prefilter admits; the result is the first attempted offset where the oracle succeeds (None if none);
-    // next_start = end for a non-empty match, else the boundary after end (None at the end of input).
-    #[kani::proof]
-    #[kani::unwind(7)]
-    #[kani::stub(MatchAttempter::try_at_pos, oracle_try_at_pos)]
-    fn f1_bt_driver_prefix_search() {
+    fn f1_body(use_bitmap: bool) {
         let (buf, len, bnd) = driver_hay();
         let text = unsafe { core::str::from_utf8_unchecked(&buf[..len]) };
         let input = Utf8Input::new(text, false);
         let re = mk(vec![Insn::Goal], 0, 0, vec![]);
         init_oracle(len, &bnd);
-        let use_bitmap: bool = kani::any();
         let admit: u8 = kani::any();
+        // precondition established by startpredicate.rs: a prefilter admits only bytes that start a character
+        kani::assume(admit < 0x80 || admit >= 0xC0);
         let bm = bytesearch::ByteBitmap::new(&[admit]);
         let start: usize = kani::any();
         kani::assume(start <= len && bnd[start]);
@@ -622,6 +629,9 @@
         } else {
             ex.next_match_with_prefix_search(input.left_end() + start, &mut next, &bytesearch::EmptyString {})
         };
+        let got = m.as_ref().map(|m| (m.range.start, m.range.end));
+        core::mem::forget(m);
+        core::mem::forget(ex);
         // spec: scan boundaries p >= start in order; admitted(p) = EmptyString or (p < len and buf[p] == admit)
         let mut expect: Option<(usize, usize)> = None;
         let mut p = start;
@@ -632,15 +642,10 @@
             }
             match next_boundary(p, len, &bnd) { Some(q) => p = q, None => break }
         }
-        let found = m.is_some();
-        match (m, expect) {
-            (None, None) => {}
-            (Some(m), Some((p, e))) => {
-                assert!(m.range == (p..e));
-                let ns = next.map(|q| input.pos_to_offset(q));
-                if e != p { assert!(ns == Some(e)); } else { assert!(ns == next_boundary(e, len, &bnd)); }
-            }
-            _ => assert!(false, "driver result differs from the exhaustive ordered scan"),
+        assert!(got == expect, "driver result = first success of the exhaustive ordered scan over admitted offsets");
+        if let Some((p, e)) = expect {
+            let ns = next.map(|q| input.pos_to_offset(q));
+            if e != p { assert!(ns == Some(e)); } else { assert!(ns == next_boundary(e, len, &bnd)); }
         }
         unsafe {
             let mut i = 0;
@@ -651,8 +656,31 @@
                 i += 1;
             }
         }
-        kani::cover!(found && len == 4 && use_bitmap);
-        kani::cover!(!found && !use_bitmap);
+        kani::cover!(got.is_some() && len == 4);
+        kani::cover!(got.is_none());
+    }
+
+    // @obligation name=f1_bt_driver_bitmap_search props=C04,C09:t,C01:t,C06:t fn=classicalbacktrack::BacktrackExecutor::next_match_with_prefix_search kind=bounded bound="haystack of 3 chars (3-4 bytes, one optional 2-byte char), every start boundary; prefilter = ByteBitmap of one symbolic lead byte; interpreter = oracle" min_checks=500 w=3 timeout=1500
+    // next_match_with_prefix_search with a bitmap prefilter: attempts are made at strictly increasing char boundaries >= start
+    // and only at offsets the prefilter admits; the result is the first admitted offset where the oracle succeeds;
+    // next_start = end for a non-empty match, else the boundary after end (None at the end of input).
+    #[kani::proof]
+    #[kani::unwind(7)]
+    #[kani::stub(MatchAttempter::try_at_pos, oracle_try_at_pos)]
+    #[kani::stub(BacktrackExecutor::successful_match, sm_stub)]
+    fn f1_bt_driver_bitmap_search() {
+        f1_body(true);
+    }
+
+    // @obligation name=f1_bt_driver_exhaustive_search props=C04,C09,C01:t,C06:t fn=classicalbacktrack::BacktrackExecutor::next_match_with_prefix_search kind=bounded bound="haystack of 3 chars (3-4 bytes, one optional 2-byte char), every start boundary; prefilter = EmptyString (Arbitrary); interpreter = oracle" min_checks=500 w=3 timeout=1500
+    // next_match_with_prefix_search with the trivial prefilter attempts every char boundary >= start in increasing order and
+    // returns the first success: this is the reference scan the prefiltered searches are compared with.
+    #[kani::proof]
+    #[kani::unwind(7)]
+    #[kani::stub(MatchAttempter::try_at_pos, oracle_try_at_pos)]
+    #[kani::stub(BacktrackExecutor::successful_match, sm_stub)]
+    fn f1_bt_driver_exhaustive_search() {
+        f1_body(false);
     }
 
     // @obligation name=f2_bt_driver_anchored props=C04,C09:t fn=classicalbacktrack::BacktrackExecutor::next_match_anchored,classicalbacktrack::BacktrackExecutor::next_match kind=bounded bound="haystack of 3 chars (3-4 bytes), every start boundary; interpreter = oracle; start_pred = StartAnchored" min_checks=300 w=2 timeout=900
@@ -660,6 +688,7 @@
     #[kani::proof]
     #[kani::unwind(7)]
     #[kani::stub(MatchAttempter::try_at_pos, oracle_try_at_pos)]
+    #[kani::stub(BacktrackExecutor::successful_match, sm_stub)]
     fn f2_bt_driver_anchored() {
         use crate::exec::MatchProducer;
         let (buf, len, bnd) = driver_hay();
@@ -674,16 +703,15 @@
         let mut next: Option<Pos> = None;
         let m = ex.next_match(input.left_end() + start, &mut next);
         let found = m.is_some();
+        let got = m.as_ref().map(|m| (m.range.start, m.range.end));
+        core::mem::forget(m);
+        core::mem::forget(ex);
         unsafe {
             assert!(LOG_N == 1 && LOG[0] == start);
-            match (m, ORACLE[start]) {
-                (None, None) => {}
-                (Some(m), Some(e)) => {
-                    assert!(m.range == (start..e));
-                    let ns = next.map(|q| input.pos_to_offset(q));
-                    if e != start { assert!(ns == Some(e)); } else { assert!(ns == next_boundary(e, len, &bnd)); }
-                }
-                _ => assert!(false),
+            assert!(got == ORACLE[start].map(|e| (start, e)));
+            if let Some(e) = ORACLE[start] {
+                let ns = next.map(|q| input.pos_to_offset(q));
+                if e != start { assert!(ns == Some(e)); } else { assert!(ns == next_boundary(e, len, &bnd)); }
             }
         }
         kani::cover!(found);
@@ -696,6 +724,7 @@
     #[kani::proof]
     #[kani::unwind(7)]
     #[kani::stub(MatchAttempter::try_at_pos, oracle_try_at_pos)]
+    #[kani::stub(BacktrackExecutor::successful_match, sm_stub)]
     fn f3_bt_matches_iteration() {
         let (buf, len, bnd) = driver_hay();
         let text = unsafe { core::str::from_utf8_unchecked(&buf[..len]) };
@@ -710,7 +739,9 @@
         let mut cursor: Option<usize> = if start <= len { Some(start) } else { None };
         let mut calls = 0;
         while calls < 6 {
-            let got = it.next();
+            let gm = it.next();
+            let got = gm.as_ref().map(|m| (m.range.start, m.range.end));
+            core::mem::forget(gm);
             // spec: first boundary p >= cursor with ORACLE[p] = Some
             let mut expect: Option<(usize, usize)> = None;
             if let Some(c0) = cursor {
@@ -720,19 +751,18 @@
                     match next_boundary(p, len, &bnd) { Some(q) => p = q, None => break }
                 }
             }
-            match (got, expect) {
-                (None, None) => { cursor = None; }
-                (Some(m), Some((p, e))) => {
-                    assert!(m.range == (p..e));
-                    cursor = if e != p { Some(e) } else { next_boundary(e, len, &bnd) };
-                }
-                _ => assert!(false, "iterator differs from the unfold specification"),
-            }
+            assert!(got == expect, "iterator = unfold of (first match at or after cursor)");
+            cursor = match expect {
+                None => None,
+                Some((p, e)) => if e != p { Some(e) } else { next_boundary(e, len, &bnd) },
+            };
             calls += 1;
         }
         // at most chars+1 = 4 matches, so by the 6th call the iterator is exhausted and stays so
         assert!(cursor.is_none());
-        assert!(it.next().is_none());
+        let last = it.next();
+        assert!(last.is_none());
+        core::mem::forget(it);
         kani::cover!(start > len);
         kani::cover!(len == 4);
     }
